@@ -4,6 +4,8 @@
    models: ClientAuthFix = FALSE (pinned tree; AdmittedOnlyAcceptable is expected to fail, see DESIGN section 5
    finding 6) and ClientAuthFix = TRUE (proposed/C19-clientauth.diff; everything holds).
 2. TLC enumerates the cross product (TlsAdmitCases.tla, one JSON line per case, no expectations).
+   A case = configuration x what happens to the CA bundle file after start-up (intact / removed) x peer credential
+   (incl. peers that ship extra certificates with their leaf and a peer that speaks no TLS at all).
 3. The harness executes EVERY case on EVERY transport as a real handshake plus one application byte each way
    (direct: encryption.GetServerTLSConfig / GetClientTLSConfig with crypto/tls; mux: NewMuxReceiverProvider /
    NewMuxEstablisherProvider; tcp: makeServerOptions / buildTLSTCPClient) against a raw crypto/tls peer whose
@@ -31,15 +33,19 @@ MANIFEST = {"C19": dict(
               "run-time generated certificates; both ends' observations are judged by TLC (TlsAdmitObs.tla)",
     text="For every combination of role (server/client), verification on/off, own certificate yes/no, CA bundle (absent, "
          "CA-A, a bundle with only a leaf, a bundle without certificates), server name (unset/matching/other) and peer "
-         "credential (valid chain, self-signed, other CA, foreign CA carrying the configured CA's name, expired, wrong "
-         "extended key usage, none; client peers that present their certificate regardless of the CA hint or obey it; "
-         "TLS 1.2 and 1.3) a real connection is attempted on each transport, and the monitor requires: admitted only if "
+         "credential (valid leaf, self-signed, other CA, foreign CA carrying the configured CA's name, expired, wrong "
+         "extended key usage, none; peers that ship more than their leaf: valid leaf + CA, foreign leaf + its own CA, "
+         "self-signed certificate twice; a peer that speaks no TLS at all; client peers that present their certificate "
+         "regardless of the CA hint or obey it, with no / the right / a foreign SNI; TLS 1.2 and 1.3), and for the "
+         "well-formed configurations also with the CA bundle file removed after the endpoint started, a real connection "
+         "is attempted on each transport, and the monitor requires: admitted only if "
          "Acceptable, acceptable peers of well-formed configurations are admitted, bundles without a CA certificate are "
          "refused at start-up. The cross product is finite and executed completely in both tiers.",
     note="Trusted: TLC, Go's crypto/tls and crypto/x509 as the raw peer, the certificate factory (classes are what their "
          "names say by construction), grpc-go as carrier for the TCP transports (application byte = one unary health "
          "check; the gRPC client's handshake is not observable separately from the call). Host system roots are assumed "
-         "not to contain the run-time CAs. HTTPS-fetched CA bundles and certificate rotation are not covered.",
+         "not to contain the run-time CAs. HTTPS-fetched CA bundles and replacing (as opposed to removing) the TLS files "
+         "under a running endpoint are not covered.",
 )}
 
 SPEC = "TlsAdmit"
@@ -90,12 +96,14 @@ def cause_of(clause, rec):
     """Cause-level label of a violation, from the attributes of the case (descriptive only; the verdict is TLC's)."""
     cfg, cred = rec["cfg"], rec["cred"]
     if clause == "admitted-unacceptable":
+        if cred["class"] == "plaintext":
+            return "plaintext-peer-admitted"
         if cfg["role"] == "server":
             # peer.sent: the raw client actually presented its certificate in this handshake (observed, not derived)
             return "client-cert-not-verified" if rec["peer"].get("sent") else "client-cert-not-required"
         if cfg["ca"] != "caA":
             return "server-cert-accepted-without-configured-ca"
-        if cred["class"] == "valid":
+        if cred["class"] in ("valid", "validchain"):
             return "server-name-not-checked"
         return "server-cert-not-verified"
     if clause == "rejected-acceptable":
@@ -120,21 +128,11 @@ def run(c, a):
         "the host's system root pool does not contain the run-time CAs (configuration ca = none on the client role)",
         "TCP transports: the application byte each way is one unary gRPC health check; the gRPC client's handshake "
         "result is observed only through the call",
-        "CA bundles are read from files (https:// bundles and certificate rotation are not exercised)",
+        "CA bundles are read from files (https:// bundles are not exercised); of what can happen to the files under a "
+        "running endpoint only the removal of the CA bundle is exercised (not key removal, not replacement)",
     ]
-    # ---- 1. design
-    r = c.tlc(SPEC, "TlsAdmit", "pinned.cfg", workers=1, timeout=120, name="design-pinned")
-    if r.violated or not r.ok:
-        raise Broken("design (pinned model): %s %s" % (r.violated, r.error_text[-600:]))
-    rp = c.tlc(SPEC, "TlsAdmit", "pinned_admit.cfg", workers=1, timeout=120, name="design-pinned-admit")
-    if not rp.violated and not rp.ok:
-        raise Broken("TLC did not complete on pinned_admit.cfg: " + rp.error_text[-600:])
-    if rp.violated:
-        c.notes.append("design-level counterexample with ClientAuthFix = FALSE (pinned code model): %s" % rp.violated)
-    rf = c.tlc(SPEC, "TlsAdmit", "fixed.cfg", workers=1, timeout=120, name="design-fixed")
-    if rf.violated or not rf.ok:
-        raise Broken("design (ClientAuthFix = TRUE) does not hold: %s %s" % (rf.violated, rf.error_text[-600:]))
-    # ---- 2. the cross product
+    # ---- 1. design, 2. the cross product, and the harness builds: independent of each other, run side by side (each TLC
+    # run is a JVM start; on a loaded machine they dominate the wall time)
     base = []
 
     def on_case(line):
@@ -146,12 +144,27 @@ def run(c, a):
             return
         if isinstance(d, dict) and "cfg" in d and "cred" in d:
             base.append(d)
-    c.tlc(SPEC, "TlsAdmitCases", "cases.cfg", workers=1, timeout=120, line_cb=on_case, name="cases")
+    from concurrent.futures import ThreadPoolExecutor
+    with ThreadPoolExecutor(max_workers=4) as ex:
+        f_rp = ex.submit(c.tlc, SPEC, "TlsAdmit", "pinned_admit.cfg", workers=1, timeout=300, name="design-pinned-admit")
+        f_rf = ex.submit(c.tlc, SPEC, "TlsAdmit", "fixed.cfg", workers=1, timeout=300, name="design-fixed")
+        f_cases = ex.submit(c.tlc, SPEC, "TlsAdmitCases", "cases.cfg", workers=1, timeout=300, line_cb=on_case, name="cases")
+        f_bins = ex.submit(build_all, c)
+        rp, rf = f_rp.result(), f_rf.result()
+        f_cases.result()
+        bins = f_bins.result()
+    if not rp.violated and not rp.ok:
+        raise Broken("TLC did not complete on pinned_admit.cfg: " + rp.error_text[-600:])
+    if rp.violated:
+        c.notes.append("design-level counterexample with ClientAuthFix = FALSE (code model of the tree before commit "
+                       "cdab740): %s" % rp.violated)
+    if rf.violated or not rf.ok:
+        raise Broken("design (ClientAuthFix = TRUE) does not hold: %s %s" % (rf.violated, rf.error_text[-600:]))
     if len(base) < 1000:
         raise Broken("cross product not enumerated (%d cases)" % len(base))
     if a.replay:
         rp_obj = json.load(open(a.replay))
-        base = [dict(cfg=rp_obj["case"]["cfg"], cred=rp_obj["case"]["cred"])]
+        base = [dict(cfg=rp_obj["case"]["cfg"], cred=rp_obj["case"]["cred"], after=rp_obj["case"].get("after", "intact"))]
         only = [rp_obj["case"]["transport"]]
     else:
         only = sorted(TRANSPORTS)
@@ -160,9 +173,9 @@ def run(c, a):
     for rep in range(reps):
         for tr in only:
             for d in base:
-                cases.append(dict(id=len(cases) + 1, transport=tr, rep=rep, cfg=d["cfg"], cred=d["cred"]))
+                cases.append(dict(id=len(cases) + 1, transport=tr, rep=rep, cfg=d["cfg"], cred=d["cred"],
+                                  after=d.get("after", "intact")))
     # ---- 3. execute
-    bins = build_all(c)
     rnd = random.Random(c.seed)
     inputs, plan = [], []
     for pkg in sorted(set(TRANSPORTS.values())):
@@ -218,15 +231,16 @@ def run(c, a):
     new, sigs = 0, []
     for key in sorted(groups):
         sig, evs = groups[key]
-        e = min(evs, key=lambda x: (x["transport"], x["rep"], json.dumps(x["cfg"], sort_keys=True),
+        e = min(evs, key=lambda x: (x["transport"], x["rep"], x["after"] != "intact", json.dumps(x["cfg"], sort_keys=True),
                                     json.dumps(x["cred"], sort_keys=True)))
-        what = ("%s (%s): %s endpoint, cfg %s, peer %s -> startup=%s proxy=%s peer=%s [%d records on transports %s]"
-                % (sig["clause"], sig["cause"], e["cfg"]["role"], json.dumps(e["cfg"], sort_keys=True),
+        what = ("%s (%s): %s endpoint, cfg %s, files after start %s, peer %s -> startup=%s proxy=%s peer=%s "
+                "[%d records on transports %s]"
+                % (sig["clause"], sig["cause"], e["cfg"]["role"], json.dumps(e["cfg"], sort_keys=True), e["after"],
                    json.dumps(e["cred"], sort_keys=True), e["startup"],
                    json.dumps({k: e["proxy"][k] for k in ("hs", "byte")}),
                    json.dumps({k: e["peer"][k] for k in ("hs", "byte")}), len(evs),
                    ",".join(sorted(set(x["transport"] for x in evs)))))
-        case = {k: e[k] for k in ("transport", "cfg", "cred")}
+        case = {k: e[k] for k in ("transport", "cfg", "cred", "after")}
         is_new = c.violation(sig, what, {"kind": "tls-case", "signature": sig, "case": case, "record": e})
         new += 1 if is_new else 0
         sigs.append(dict(sig, records=len(evs), known=not is_new))
@@ -250,8 +264,8 @@ def run(c, a):
         return 0
     # ---- evidence
     executed = [e for e in events if e["startup"] == "ready"]
-    distinct = set((e["transport"], json.dumps(e["cfg"], sort_keys=True), json.dumps(e["cred"], sort_keys=True))
-                   for e in executed)
+    distinct = set((e["transport"], e["after"], json.dumps(e["cfg"], sort_keys=True),
+                    json.dumps(e["cred"], sort_keys=True)) for e in executed)
     by_tr = {}
     for e in events:
         d = by_tr.setdefault(e["transport"] + "/" + e["cfg"]["role"],
@@ -262,10 +276,12 @@ def run(c, a):
             d["admitted" if e["proxy"]["hs"] and e["proxy"]["byte"] else "refused"] += 1
     c.coverage.update({
         "evaluations": len(events), "distinct_nontrivial": len(distinct), "exhaustive": True,
-        "rule": "the complete cross product Cfgs x Creds(role) of TlsAdmitRules.tla as enumerated by TLC (TlsAdmitCases), "
-                "executed on each transport (direct, mux, tcp) and, in the thorough tier, repeated with fresh keys; "
-                "non-trivial = the endpoint started and a real handshake was attempted; distinct = different (transport, "
-                "configuration, credential) triple",
+        "rule": "the complete cross product Cfgs x Envs(cfg) x Creds(role) of TlsAdmitRules.tla as enumerated by TLC "
+                "(TlsAdmitCases), executed on each transport (direct, mux, tcp) and, in the thorough tier, repeated with "
+                "fresh keys; non-trivial = the endpoint started and a real connection was attempted; distinct = different "
+                "(transport, configuration, files-after-start, credential) tuple",
+        "cases_with_ca_bundle_removed_after_start": sum(1 for e in events if e["after"] == "caRemoved"),
+        "cases_with_plaintext_peer": sum(1 for e in events if e["cred"]["class"] == "plaintext"),
         "cross_product": len(base), "transports": only, "repetitions": reps,
         "handshakes_attempted": len(executed), "by_transport_role": by_tr,
         "violating_records": len(viol), "violation_groups": len(groups), "new_violation_groups": new,
